@@ -383,7 +383,13 @@ func (t *thread) apply(opts *execOpts) error {
 	t.astack = newStack(t.cfg, t.hasFlag(scriptflag.VerifyMinimalData))
 
 	if t.tx != nil && t.prevOutput != nil {
-		t.tx.InputIdx(t.inputIdx).PreviousTxScript = t.prevOutput.LockingScript
+		// the spent output may be given with its value only, the scripts coming
+		// through WithScripts: the script recorded is then the one being executed.
+		if t.prevOutput.LockingScript != nil {
+			t.tx.InputIdx(t.inputIdx).PreviousTxScript = t.prevOutput.LockingScript
+		} else {
+			t.tx.InputIdx(t.inputIdx).PreviousTxScript = lscript
+		}
 		t.tx.InputIdx(t.inputIdx).PreviousTxSatoshis = t.prevOutput.Satoshis
 	}
 
